@@ -3,6 +3,7 @@
 #include <sstream>
 
 namespace vm {
+const BitSerializer::SerializationOptions kLibraryDefaults{};
 ArchiveOps& GetOps(int a)
 {
 	switch (a)
